@@ -22,7 +22,7 @@ Definition set_commented (b : bool) (t : tree) : tree :=
 (* The children loop of compute_no_format_impl, as a function of the recursive call `rec`
    (used to state lemmas; `no_format` below carries the same loop as a local fix). *)
 Definition skips_directive (c : tree) : bool :=
-  match kind_of c with KSpace | KHash => true | _ => false end.
+  match kind_of c with KSpace | KParbreak | KHash => true | _ => false end.
 
 Fixpoint no_format_children (rec : tree -> tree) (cs : list tree) (disable_next commented : bool) : list tree * bool :=
   match cs with
